@@ -214,7 +214,7 @@ def rule_gauge_order_binding(ctx):
     return r
 
 
-def rule_where_sorted_with_operator(ctx):
+def rule_where_sorted_with_operator(ctx, modules=None, rule="where-sorted-with-operator", floor=5):
     r = RuleResult(
         "where-sorted-with-operator",
         "in the local-expectation code the sites of a term and its operator travel together: the k-th factor of G acts on the k-th site of "
@@ -223,9 +223,36 @@ def rule_where_sorted_with_operator(ctx):
         "in descending order",
     )
     n = 0
+    r.rule = rule
     for f in ctx.prog.all_functions(nested=False):
-        if f.is_alias or isinstance(f.node, ast.Lambda) or f.module.name not in MODULES:
+        if f.is_alias or isinstance(f.node, ast.Lambda) or not (f.module.name in MODULES if modules is None else f.module.name.startswith(tuple(modules))):
             continue
+        # (b) a site *parameter* re-bound to a sorted version of itself and then passed on, positionally, next to another parameter
+        #     (the operator):  where = tuple(sorted(...where...)); return X.local_expectation(G, where, ...)
+        sps = [p_ for p_ in f.params if p_ in SITE_PARAMS]
+        for wname in sps:
+            rebinds = [a for a in _own_walk(f.node) if isinstance(a, ast.Assign) and any(isinstance(t, ast.Name) and t.id == wname for t in a.targets)
+                       and any(isinstance(c, ast.Call) and isinstance(c.func, ast.Name) and c.func.id == "sorted" and any(isinstance(y, ast.Name) and y.id == wname for y in ast.walk(c))
+                               for c in ast.walk(a.value))]
+            if not rebinds:
+                if any(isinstance(c, ast.Call) and any(isinstance(a_, ast.Name) and a_.id == wname for a_ in c.args) for c in _own_walk(f.node)):
+                    n += 1
+                continue
+            n += 1
+            a = rebinds[0]
+            others = [q_ for q_ in f.params if q_ not in ("self", "cls", wname)]
+            hit = None
+            for x in _own_walk(f.node):
+                if isinstance(x, ast.Call) and getattr(x, "lineno", 0) > a.lineno:
+                    pos = [y.id for y in x.args if isinstance(y, ast.Name)]
+                    if wname in pos and any(q_ in pos for q_ in others):
+                        hit = (x, next(q_ for q_ in others if q_ in pos))
+                        break
+            if hit is not None:
+                r.bad(Finding(rule, f.qualname,
+                              f"`{src_of(a)[:60]}` (line {a.lineno}) re-binds the requested sites to a sorted version and `{src_of(hit[0])[:50]}` (line {hit[0].lineno}) hands them on next to the "
+                              f"unpermuted `{hit[1]}`: for sites that come out in descending order the operator's factors land on exchanged sites",
+                              where=f"{f.module.relpath}:{a.lineno}", operand=f"{wname}:{hit[1]}"))
         # site tuples: loop targets over <terms>.items()  (for where, G in terms.items())  and site parameters
         pairs = []
         for lp in _own_walk(f.node):
@@ -257,10 +284,10 @@ def rule_where_sorted_with_operator(ctx):
                         together = x
                         break
                 if together is not None:
-                    r.bad(Finding("where-sorted-with-operator", f.qualname,
+                    r.bad(Finding(rule, f.qualname,
                                   f"`{src_of(a)[:50]}` (line {a.lineno}) sorts the sites of a term and `{src_of(together)[:40]}` (line {together.lineno}) hands them on with the unpermuted operator `{gname}`: "
                                   "for a pair given in descending order the operator's factors land on exchanged sites", where=f"{f.module.relpath}:{a.lineno}", operand=f"{wname}:{gname}"))
         if not any(fd.construct == f.qualname for fd in r.findings):
             r.ok(f.qualname, sample={"function": f.qualname, "term loops": [f"{w}, {g}" for w, g, _ in pairs]}, nontrivial=False)
-    r.floor(n, 5, "loops over (sites, operator) terms in the local-expectation modules")
+    r.floor(n, floor, "loops over (sites, operator) terms / site parameters handed on in the local-expectation modules")
     return r
